@@ -23,6 +23,7 @@ ENGINES = {  # name -> number in Model/Engines.v
     "dec3": 10,
     "enc3": 11,
     "varint": 12,
+    "respq": 30,
     "dec5": 20,
     "enc5": 21,
     "sniff": 22,
